@@ -39,11 +39,32 @@ def stage_drift(ctx, res, lines, cfgs, label):
                 else:
                     bad = I != m
                 if bad:
+                    if line.startswith("sci "):
+                        # remember the significand: the search is then aimed at inputs that reach the big-integer
+                        # stage with exactly these first 19 digits (focus_prefix_pass)
+                        w = line.split()[1]
+                        if w.isdigit() and int(w) > 0 and len(w) <= 19:
+                            fp = res.extra.setdefault("focus_prefix", [])
+                            w19 = int(w) * 10 ** (19 - len(w))
+                            if w19 not in fp and len(fp) < 24:
+                                fp.append(w19)
                     res.extra["stage_difference_count"] = res.extra.get("stage_difference_count", 0) + 1
                     if len(diffs) < 10:
                         diffs.append(dict(stage=label, case=line[:300], cfg=c, profile=p, impl=I[:160], model=m[:160]))
     res.extra["stage_" + label] = res.extra.get("stage_" + label, 0) + n
     res.evals += n
+
+def focus_prefix_pass(prop, ctx, rng, res, known, f):
+    """when `scientific_exponent` (an internal stage, never a verdict) differs from the model for some
+    significands, construct valid inputs that reach the big-integer stage with exactly those first 19 digits
+    (exact search for midpoints in [w 10^n, (w+1) 10^n)) and judge them end to end"""
+    ws = res.extra.get("focus_prefix") or []
+    if not ws or res.viol:
+        return
+    cases = gens.gen_prefix_near_mid(rng, f, ws, "T-focus")
+    res.extra["focus_prefix_cases"] = res.extra.get("focus_prefix_cases", 0) + len(cases)
+    if cases:
+        _mod().check_pf(prop, cases, ctx.cfgs, ctx.profiles, res, known)
 
 def pf_to_stage_lines(cases, rng, limit):
     """pn / fp / sci lines derived from pf cases"""
@@ -58,6 +79,20 @@ def pf_to_stage_lines(cases, rng, limit):
         v = rng.choice([0, 1, 1844674407370955161, 1844674407370955162, 2 ** 64 - 1, rng.getrandbits(64), rng.getrandbits(60)])
         out.append("adddigit %d %d" % (v, rng.choice([0, 5, 6, 9, 255])))
     return out
+
+def sci_probe_lines(rng):
+    """structured significands for `scientific_exponent`: decade and binade boundaries and their neighbours,
+    plus random ones of every length"""
+    probes = set()
+    for k in range(0, 20):
+        for d in (-1, 0, 1):
+            probes.add(10 ** k + d)
+    for k in range(0, 65):
+        for d in (-1, 0, 1):
+            probes.add(2 ** k + d)
+    for k in range(1, 20):
+        probes.add(rng.randrange(10 ** (k - 1), 10 ** k))
+    return ["sci %d %d" % (v, rng.choice([0, -300, 300, 17, -1])) for v in sorted(x for x in probes if 0 < x < 2 ** 64)]
 
 def mp_to_stage_lines(cases, rng, limit, compact):
     out = []
@@ -77,6 +112,7 @@ def mp_to_stage_lines(cases, rng, limit, compact):
             out.append("belmul %d %d %d %d" % (w | (1 << 63), q % 50, (w * 2654435761 % 2 ** 64) | (1 << 63), -(q % 70)))
         out.append("sci %d %d" % (w, max(-2 ** 31 + 50, min(2 ** 31 - 50, q))))
         out.append("u2f %s %d" % (f, w))
+    out += sci_probe_lines(rng)
     return out
 
 def slow_stage_lines(rng, f, n):
@@ -105,6 +141,8 @@ def run_C01(ctx, rng, tier, res, known):
     q = tier == "quick"
     stage_drift(ctx, res, pf_to_stage_lines(cases, rng, 3000 if q else 40000), ("std", "std+compact"), "parse_number")
     stage_drift(ctx, res, slow_stage_lines(rng, "f64", 300 if q else 5000), ("std", "std+alloc", "std+compact"), "digit_comp")
+    stage_drift(ctx, res, sci_probe_lines(rng), ("std", "std+compact"), "scientific_exponent")
+    focus_prefix_pass("C01", ctx, rng, res, known, "f64")
     if not q:
         cross_target_pass(ctx, rng, res, gens.gen_boundary(rng, "f64", 200) + gens.gen_bigint_ties(rng, "f64", 60) + _mod().cases_long(rng, "quick", "f64")[::40])
     return {}
@@ -119,6 +157,8 @@ def run_C02(ctx, rng, tier, res, known):
     q = tier == "quick"
     stage_drift(ctx, res, pf_to_stage_lines(cases, rng, 3000 if q else 40000), ("std", "std+compact"), "parse_number")
     stage_drift(ctx, res, slow_stage_lines(rng, "f32", 300 if q else 5000), ("std", "std+alloc", "std+compact"), "digit_comp")
+    stage_drift(ctx, res, sci_probe_lines(rng), ("std", "std+compact"), "scientific_exponent")
+    focus_prefix_pass("C02", ctx, rng, res, known, "f32")
     if not q:
         cross_target_pass(ctx, rng, res, gens.gen_boundary(rng, "f32", 200) + gens.gen_bigint_ties(rng, "f32", 60) + _mod().cases_long(rng, "quick", "f32")[::40])
     return {}
@@ -372,6 +412,8 @@ def run_C06(ctx, rng, tier, res, known):
         t = line.split()
         pm.append("pm %s %s %d" % (t[2], t[3], gens.FMT[t[1]]["maxdig"]))
     stage_drift(ctx, res, pm, ("std", "std+alloc"), "parse_mantissa")
+    stage_drift(ctx, res, sci_probe_lines(rng), ("std", "std+compact"), "scientific_exponent")
+    focus_prefix_pass("C06", ctx, rng, res, known, "f64")
     if tier != "quick":
         # 32-bit limbs chunk the digits in steps of 9 instead of 19: run long inputs under Miri for i686 / s390x
         cross_target_pass(ctx, rng, res, [c for c in cases if len(c[0]) < 900], n=90)
